@@ -106,10 +106,10 @@ def build_mm(bench: str) -> Any:
     from proof_generation.metamath.translate import convert_to_implication, exec_proof
     from proof_generation.proof import ProofExp
 
-    if bench in ('two-variables', 'ph2-constant'):
+    if bench in ('two-variables', 'ph2-constant', 'ambiguous-vars'):
         from proof_generation.metamath.parser import parse_database
 
-        db = parse_database(TWO_VARIABLES if bench == 'two-variables' else PH2_CONSTANT)
+        db = parse_database({'two-variables': TWO_VARIABLES, 'ph2-constant': PH2_CONSTANT, 'ambiguous-vars': AMBIGUOUS_VARS}[bench])
     else:
         import os
 
@@ -120,6 +120,9 @@ def build_mm(bench: str) -> Any:
         ax = converter.get_axiom_by_name(n)
         axioms.append(convert_to_implication(ax.antecedents, ax.pattern) if isinstance(ax, AxiomWithAntecedents) else ax.pattern)
     claims = [converter.get_lemma_by_name(n).pattern for n in converter.lemmas]
+    if not converter.lemmas:
+        # a theory without a theorem: only the gamma phase has content
+        return ProofExp(axioms=axioms, claims=[])
     target = list(converter.lemmas)[-1]
 
     class Skeleton(ProofExp):
@@ -148,6 +151,20 @@ goal $p |- ( \imp ph2 ( \imp ph0 ph2 ) ) $=
   ( proof-rule-prop-1 ) BAC $.
 """
 
+
+# three variables of the ambiguous sort #Variable in one axiom (each is converted once as element, once as set variable)
+AMBIGUOUS_VARS = r"""
+$c #Pattern #Variable #ElementVariable #SetVariable #Symbol \imp \app ( ) |- $.
+$v ph0 ph1 xX yY zZ $.
+ph0-is-pattern $f #Pattern ph0 $.
+ph1-is-pattern $f #Pattern ph1 $.
+xX-is-var $f #Variable xX $.
+yY-is-var $f #Variable yY $.
+zZ-is-var $f #Variable zZ $.
+imp-is-pattern $a #Pattern ( \imp ph0 ph1 ) $.
+app-is-pattern $a #Pattern ( \app ph0 ph1 ) $.
+ax-three-vars $a |- ( \imp xX ( \imp ( \app yY zZ ) ph0 ) ) $.
+"""
 
 # the same little theory, but ph2 is a constant (a zero-ary pattern) here and a variable in TWO_VARIABLES
 PH2_CONSTANT = r"""
